@@ -40,7 +40,14 @@ pub struct Model
 	stdin: Option<ChildStdin>,
 	stdout: BufReader<ChildStdout>,
 	pub requests: u64,
+	/// (request, reply) pairs kept for the interpreter cross-check of the compiled driver (`./check`, step 3c)
+	kept: Vec<(String, String)>,
 }
+
+/// requests cheap enough (for the compiled driver) to be repeated under the Lean interpreter
+const KEEP_MAX_MICROS: u128 = 400;
+const KEEP_MAX_LEN: usize = 3000;
+const KEEP_CAP: usize = 600;
 
 impl Model
 {
@@ -51,7 +58,7 @@ impl Model
 			.unwrap_or_else(|e| panic!("cannot start the Lean model driver {exe}: {e} (run ./check --setup)"));
 		let stdin = child.stdin.take();
 		let stdout = BufReader::new(child.stdout.take().unwrap());
-		Self{child, stdin, stdout, requests: 0}
+		Self{child, stdin, stdout, requests: 0, kept: Vec::new()}
 	}
 
 	/// one request, one reply
@@ -63,17 +70,30 @@ impl Model
 		w.write_all(b"\n").unwrap();
 		w.flush().unwrap();
 		self.requests += 1;
+		let t0 = Instant::now();
 		let mut out = String::new();
 		let n = self.stdout.read_line(&mut out).unwrap();
 		if n == 0 {panic!("Lean model driver died on request: {line}");}
 		while out.ends_with('\n') || out.ends_with('\r') {out.pop();}
+		if t0.elapsed().as_micros() < KEEP_MAX_MICROS {self.keep(line, &out);}
 		out
+	}
+
+	/// deterministic thinning: the first 60 cheap requests of a process, then those whose hash selects them
+	fn keep(&mut self, line: &str, reply: &str)
+	{
+		if line.len() > KEEP_MAX_LEN || reply.len() > KEEP_MAX_LEN || self.kept.len() >= KEEP_CAP {return;}
+		if self.kept.len() < 60 || fnv(0xcbf29ce484222325, line.as_bytes()) % 211 == 0
+		{
+			self.kept.push((line.to_owned(), reply.to_owned()));
+		}
 	}
 
 	/// many requests; written from a helper thread so that neither pipe can fill up
 	pub fn ask_many(&mut self, lines: &[String]) -> Vec<String>
 	{
 		let mut out = Vec::with_capacity(lines.len());
+		let t0 = Instant::now();
 		let stdin = self.stdin.take().unwrap();
 		let stdout = &mut self.stdout;
 		let stdin = std::thread::scope(|s|
@@ -101,7 +121,32 @@ impl Model
 		});
 		self.stdin = Some(stdin);
 		self.requests += lines.len() as u64;
+		if !lines.is_empty() && t0.elapsed().as_micros() / (lines.len() as u128) < KEEP_MAX_MICROS / 4
+		{
+			for (l, r) in lines.iter().zip(out.iter())
+			{
+				if fnv(0xcbf29ce484222325, l.as_bytes()) % 211 == 0 {self.keep(l, r);}
+			}
+		}
 		out
+	}
+}
+
+impl Model
+{
+	/// append the kept (request, reply) pairs to $TRION_MODEL_SAMPLES (once)
+	pub fn flush_samples(&mut self)
+	{
+		if let Ok(path) = std::env::var("TRION_MODEL_SAMPLES")
+		{
+			if let Ok(mut f) = std::fs::OpenOptions::new().create(true).append(true).open(path)
+			{
+				let mut buf = String::new();
+				for (l, r) in &self.kept {buf.push_str(l); buf.push('\t'); buf.push_str(r); buf.push('\n');}
+				let _ = f.write_all(buf.as_bytes());
+			}
+		}
+		self.kept.clear();
 	}
 }
 
@@ -111,6 +156,7 @@ impl Drop for Model
 	{
 		drop(self.stdin.take());
 		let _ = self.child.wait();
+		self.flush_samples();
 	}
 }
 
